@@ -55,7 +55,7 @@ def run(ctx: Ctx) -> int:
         "(<= 4 slots; slice of 5), hand-written layouts, repo corpus. Per program: subroutine membership = call-free reachability from the entry decided by z3's fixedpoint "
         "engine; names, entries, exits, retsub blocks, called_subroutine, sub_return_point (and its back pointer), caller / return-point tables of Subroutine and of Function, "
         "call-graph edges compared with the control-flow semantics",
-        [PT.parse_teal, PT.identify_subroutine_blocks, Subroutine.__init__, Function.__init__, BasicBlock.sub_return_point.fget, PrinterCallGraph._construct_call_graph],
+        [lambda: PT.parse_teal, lambda: PT.identify_subroutine_blocks, lambda: Subroutine.__init__, lambda: Function.__init__, lambda: BasicBlock.sub_return_point.fget, lambda: PrinterCallGraph._construct_call_graph],
         {"subroutines": "0..6", "max_slots": 5},
         ["programs are assembler-valid and structured", "the DOT text of the call-graph file is outside (C18)"],
     )
